@@ -418,3 +418,49 @@ Definition run (cs : list case) : list (N * N * N) :=
     (fun c => obs_eqb (model (c_in c)) (c_obs c))
     (fun c => negb (wf (c_in c)) || spec_ok (c_in c) (c_obs c))
     (fun _ => 0%N) cs.
+
+(* ---------- propositions used in the statements of the theorems ---------- *)
+
+(* the envelope parses, its signature is valid over payload and signed
+   attributes under its leaf key (notation-core-go), and the payload is
+   declared a Notary payload *)
+Definition Intact (e : envfacts) : Prop :=
+  e_parse e = true /\ e_verify e = VOk /\ e_ctype e = media_type_payload_v1.
+
+(* every required pair is an annotation of the signed target *)
+Definition MdPresent (md : amap) (t : target) : Prop :=
+  forall k v, In (k, v) md -> lookup k (t_ann t) = Some v.
+
+(* the signed target is the artifact presented in the call *)
+Definition Bound (c : call) (e : envfacts) (t : target) : Prop :=
+  match c with
+  | COCI d => t_dg t = t_dg d /\ t_sz t = t_sz d /\ t_mt t = t_mt d
+  | CBlob g =>
+      exists a d, alg_of (e_hash e) = Some a /\ run_gen g a = Some d /\
+                  t_dg t = t_dg d /\ t_sz t = t_sz d /\ (t_mt d <> "" -> t_mt t = t_mt d)
+  | CTop b =>
+      exists a, alg_of (e_hash e) = Some a /\ b_read_ok b = true /\
+                t_dg t = digest_of b a /\ t_sz t = b_size b /\ (b_mt b <> "" -> t_mt t = b_mt b)
+  end.
+
+(* a legal statement whose level is not skip *)
+Definition NonSkip (lvl : string) (ov : amap) : Prop :=
+  exists l, get_level lvl ov = Some l /\ is_skip l = false.
+
+(* the argument checks of notation.VerifyBlob and of its descriptor generator
+   (no reserved key among the required metadata) *)
+Definition args_ok (c : call) (md : amap) : bool :=
+  match c with
+  | CTop b =>
+      negb (b_sig_empty b)
+      && (String.eqb (b_mt b) "" || b_mt_valid b)
+      && (String.eqb (b_sigmt b) media_type_jws || String.eqb (b_sigmt b) media_type_cose)
+      && match add_user_metadata [] md with Some _ => true | None => false end
+  | _ => true
+  end.
+
+(* same envelope, artifact and required metadata under another configuration:
+   level, override, and whatever trust store, identities, revocation and
+   plugins make of the rest of processSignature *)
+Definition reconfig (i : input) (lvl : string) (ov : amap) (rest touch : bool) : input :=
+  mk_in lvl ov (i_env i) rest touch (i_md i) (i_call i).
